@@ -1674,11 +1674,20 @@ class OPCODE(AbstractOperation):
     def typecheck(self, *args, assembly_only=False, **kwargs):
         messages = super().typecheck(*args, assembly_only=assembly_only, **kwargs)
 
-        # Only a literal word can be checked here; a missing or ill-typed argument has
-        # already been reported, and a constant is not substituted until preprocessing.
+        # Only a word that is known here can be checked: a literal, or a constant that
+        # has been declared. A missing or ill-typed argument has already been reported.
+        word = None
         if len(self.tokens) == 1 and self.tokens[0].type == Token.INT:
+            word = self.args[0]
+        elif len(self.tokens) == 1 and self.tokens[0].type == Token.SYMBOL:
+            symbol_table = args[0] if args else kwargs.get("symbol_table", {})
+            value = symbol_table.get(self.args[0])
+            if isinstance(value, Constant):
+                word = value
+
+        if word is not None:
             try:
-                disassemble(self.args[0], allow_unknown=assembly_only)
+                disassemble(word, allow_unknown=assembly_only)
             except HERAError:
                 if not assembly_only:
                     messages.err("not a HERA instruction", self.tokens[0])
